@@ -10,7 +10,7 @@ from ..lib import load
 from . import common as C
 
 ID = "C03"
-BUDGET = {"quick": 5600, "thorough": 100000}
+BUDGET = {"quick": 8000, "thorough": 100000}
 SOFT = {"quick": 80, "thorough": 560}
 RULE = ("PG-PG, PG-PH, PH-PG, PH-PH cycled; lattice bodies in labelled relative positions (shared features, translated copies by "
         "lattice / edge / half-edge vectors, scaled copies, coplanar polygons, bodies built on (part of) a face, random) judged "
